@@ -9,7 +9,7 @@ PROPS = {
         fuzz=[dict(target="c08_kernels", prop="spgemm_double", quick_runs=15000, thorough_runs=1000000, thorough_jobs=4, max_len=2048),
               dict(target="c08_kernels", prop="pointwise", quick_runs=15000, thorough_runs=1000000, thorough_jobs=2, max_len=2048)],
         level="exploration",
-        rule="tape-decoded random sparse operands (shapes 0..300, empty rows/cols, sorted and unsorted rows, double/complex/2x2,3x3 block values, "
+        rule="tape-decoded random sparse operands (shapes 0..300, empty rows/cols, sorted and unsorted rows, double/complex/2x2,3x3 real block and 2x2 complex block values, "
              "small-integer values so that every kernel operation is exact) compared bitwise with a dense reference; exhaustive pattern pairs up to 3x3 (4x3*3x4 thorough); "
              "thread counts 1/4/17 (17 selects the row-merge SpGEMM). non-trivial: both operands have >=2 stored entries and the result has an accumulated entry "
              "(spgemm/sum: overlapping contributions; pointwise: block size>=2 with >=2 blocks in a row; sort: a row actually out of order; transpose: rectangular). "
